@@ -18,6 +18,7 @@ Next == g < Len(Table) /\ g' = g + 1
 
 G == Table[g]
 AllRowsVisited == Len(Table) = 27
+PolyOfIsTable == PolyOf(G.name) = G.poly          \* the by-name dispatch used by GateAt agrees with the table row
 Dimension == /\ Len(G.poly) = 2^G.nq /\ \A r \in 1..Len(G.poly) : Len(G.poly[r]) = 2^G.nq
 UnitaryForAllParams == PMIsUnitary(G.poly)
 HermitianFlagSound == G.herm => PMAdj(G.poly) = G.poly
